@@ -54,6 +54,7 @@ type pathState struct {
 	reached   map[string]bool
 	atoms     map[int]*decAtom // term id -> digitisation (per path)
 	linked    map[*decAtom]bool
+	tblVars   map[tblKey]*Term // large-table reads abstracted on this path
 	asserts   int
 	unsatAsserts int
 	knownHit  map[string]bool
@@ -506,7 +507,89 @@ func (fr *frame) indexValue(elems []value, idx value) value {
 			return in.mkSym(acc, k)
 		}
 	}
+	if v, ok := fr.tableAbstraction(elems, lo, hi, t, k); ok {
+		return v
+	}
 	return elems[fr.concretize(s)]
+}
+
+// tableAbstraction over-approximates a read of a large constant integer
+// table at a symbolic index: the result is a fresh variable constrained to
+// the (at most 8) value intervals that cover the table's entries over the
+// feasible index range.  The index-to-value relation is dropped, which is
+// sound for "holds" verdicts; a counterexample that depends on it does not
+// reproduce natively and is reported as inconclusive, never as a violation.
+func (fr *frame) tableAbstraction(elems []value, lo, hi uint64, idx *Term, k types.BasicKind) (value, bool) {
+	in := fr.i
+	if k == types.Invalid || k == types.Bool || in.path == nil {
+		return nil, false
+	}
+	w := kindWidth(k)
+	mask := ^uint64(0)
+	if w < 64 {
+		mask = (uint64(1) << uint(w)) - 1
+	}
+	seen := map[uint64]bool{}
+	var vals []uint64
+	for i := lo; i <= hi; i++ {
+		b, ok := intBits(elems[i])
+		if !ok || kindOf(elems[i]) != k {
+			return nil, false
+		}
+		u := uint64(b) & mask
+		if !seen[u] {
+			seen[u] = true
+			vals = append(vals, u)
+		}
+	}
+	sort.Slice(vals, func(a, b int) bool { return vals[a] < vals[b] })
+	// cut at the 7 largest gaps
+	type gap struct {
+		at   int
+		size uint64
+	}
+	var gaps []gap
+	for i := 1; i < len(vals); i++ {
+		if d := vals[i] - vals[i-1]; d > 1 {
+			gaps = append(gaps, gap{i, d})
+		}
+	}
+	sort.Slice(gaps, func(a, b int) bool { return gaps[a].size > gaps[b].size })
+	if len(gaps) > 7 {
+		gaps = gaps[:7]
+	}
+	cut := map[int]bool{}
+	for _, g := range gaps {
+		cut[g.at] = true
+	}
+	p := in.path
+	key := tblKey{&elems[0], idx.id}
+	if p.tblVars == nil {
+		p.tblVars = map[tblKey]*Term{}
+	}
+	st := in.st
+	if v, ok := p.tblVars[key]; ok {
+		return in.mkSym(v, k), true
+	}
+	v := st.Var(fmt.Sprintf("tbl!%d", len(p.tblVars)), w)
+	p.tblVars[key] = v
+	cond := st.ff
+	start := 0
+	for i := 1; i <= len(vals); i++ {
+		if i == len(vals) || cut[i] {
+			a, b := vals[start], vals[i-1]
+			cond = st.Or(cond, st.And(st.Ule(st.Const(w, a), v), st.Ule(v, st.Const(w, b))))
+			start = i
+		}
+	}
+	in.sv.Assert(cond)
+	in.Stats.TableAbstractions++
+	return in.mkSym(v, k), true
+}
+
+type tblKey struct {
+	base *value
+	idx  int
 }
 
 func identicalValue(a, b value) bool {
@@ -538,7 +621,7 @@ func (in *Interp) fullModel() (map[string]int64, bool) {
 	m := in.sv.Model(p.vars)
 	out := map[string]int64{}
 	for _, v := range p.vars {
-		if strings.HasPrefix(v.name, "dig!") {
+		if strings.HasPrefix(v.name, "dig!") || strings.HasPrefix(v.name, "tbl!") {
 			continue
 		}
 		k := p.varKinds[v.name]
